@@ -1,6 +1,7 @@
 package main
 
 import (
+	"sort"
 	"fmt"
 	"strings"
 
@@ -417,7 +418,18 @@ func c33Body(mk func() *world, hist []hop, par int) func(r *tape.Run) {
 			return
 		}
 		// Changed: every observation of (run, query) agrees, and equals "executed during that run"
-		for key, flags := range w.changed {
+		keysChanged := make([][2]int, 0, len(w.changed))
+		for key := range w.changed {
+			keysChanged = append(keysChanged, key)
+		}
+		sort.Slice(keysChanged, func(a, b int) bool {
+			if keysChanged[a][0] != keysChanged[b][0] {
+				return keysChanged[a][0] < keysChanged[b][0]
+			}
+			return keysChanged[a][1] < keysChanged[b][1]
+		})
+		for _, key := range keysChanged {
+			flags := w.changed[key]
 			run, q := key[0], key[1]
 			exec := false
 			for _, e := range w.execs[q] {
